@@ -17,6 +17,28 @@ PROPS = {
         statement="forall parsed lines without duplicate sibling keys, forall configurations with --redactFieldNames off: shapeEq input (redactLine input)",
         partial="byte level (one physical line, valid JSON, parse . print round trip) is covered by the print/parse correspondence and the oracle, not yet by a theorem",
     ),
+    "C01": dict(
+        module="Anonymongo.Props.C01",
+        theorems=["Anonymongo.C01_tables", "Anonymongo.C01_dispatch", "Anonymongo.C01_zone_entry", "Anonymongo.C01_replaced",
+                  "Anonymongo.C01_replaced_enc", "Anonymongo.C01_numbers_bools", "Anonymongo.C01_remote", "Anonymongo.C02_walk"],
+        corr=["line", "other", "sweep", "arb", "misc"],
+        statement="(a) kernel-decided over the tables REGENERATED from the binary: every table entry that keeps values (Exempt / FieldName / Namespace / Pipeline) is on the whitelist of operational parameters written from the property text (Spec/Whitelist.lean); (b) every query-bearing command key opens a zone and all three command attributes are walked; (c) for every key path, stage mode and string: a string handed to redactScalarValue under a non-exempt path becomes one of five constants (placeholder mode) or its ciphertext / a constant (encrypt mode, also when Encrypt fails), numbers / booleans become the constant when their flag is on, attr.remote becomes the constant with --redactIPs; (e) the whole output is independent of the replaced literals (C02_walk)",
+        partial="that a literal at a spec-sensitive position of an arbitrary tree always reaches redactScalarValue under a non-exempt path is proved per lookup (the exemption can only come from a whitelisted table entry: C01_tables) but the link 'document position -> key path handed to the lookup' is the walker model, tied to the code by correspondence, and checked end to end by the planted-token oracle (in-process and through the real CLI); selective mode is excluded by the property",
+    ),
+    "C02": dict(
+        module="Anonymongo.Props.C02",
+        theorems=["Anonymongo.C02_walk", "Anonymongo.C02_command", "Anonymongo.Ctx.run_rel", "Anonymongo.Ctx.run_scalar"],
+        corr=["line", "sweep", "arb", "misc"],
+        statement="placeholder mode, full-redaction mode (with or without --redactFieldNames / --redactNamespaces): from every walker state, two trees with the same keys, the same array lengths, equal kept parts and - at every leaf the walker hands to redactScalarValue under a non-exempt key path - leaves of the same lexical class (value under $date/$oid/$binary.base64, e-mail-shaped string, ordinary string, any two numbers with --redactNumbers, any two booleans with --redactBooleans) are redacted to the SAME tree; lifted to whole command documents (all zones)",
+        partial="selective mode (--redactFieldsRegexp) is outside the theorem (the walker's states then depend on '$field' siblings and search path arguments): covered by the pair oracle only. Which positions are sensitive is C01. Byte identity of the printed lines follows because printing is a function of the tree (model) and is corresponded.",
+    ),
+    "C19": dict(
+        module="Anonymongo.Props.C19",
+        theorems=["Anonymongo.C19_walk", "Anonymongo.C19_line", "Anonymongo.C19_constants", "Anonymongo.redactScalar_idem"],
+        corr=["line", "text", "sweep"],
+        statement="placeholder mode, value-redaction flags only (any of --redactNumbers/--redactBooleans/--redactIPs, any --replacement that is not e-mail shaped, incl. '$...' and empty): redactLine (redactLine L) = redactLine L for every line without duplicate sibling keys; every placeholder classifies as a member of its own class (redactScalar_idem); the regenerated e-mail placeholder is e-mail shaped and the default replacement is not (kernel decide)",
+        partial="tree level; 'parsing followed by serialisation is stable' (byte level) is the print/parse correspondence on every generated output plus the second pass through the real CLI; selective mode is covered by the oracle only",
+    ),
     "C18": dict(
         module="Anonymongo.Props.C18",
         theorems=["Anonymongo.Cli.C18_exact", "Anonymongo.Cli.C18_clean", "Anonymongo.Cli.C18_modes"],
